@@ -443,6 +443,7 @@ func lifecycleScenarios() []lcScenario {
 		extra = append(extra, lcScenario{Kind: kind, N: 1, ExecFail: []bool{false}, CancelAt: -1, PostPanic: true},
 			lcScenario{Kind: kind, N: 1, ExecFail: []bool{false}, CancelAt: -1, PostPanic: true, InFlow: true})
 	}
+	extra = append(extra, lcScenario{Kind: "special:plain-node-with-batch-concurrency", CancelAt: -1})
 	for _, n := range []int{2, 3} {
 		extra = append(extra, lcScenario{Kind: "struct", N: n, WaitMs: 15, ExecFail: []bool{true, false}, CancelAt: -1, Override: true},
 			lcScenario{Kind: "struct", N: n, WaitMs: 15, ExecFail: []bool{true, true, true}, Fallback: true, CancelAt: -1, Override: true})
@@ -472,7 +473,37 @@ func samePayload(a, b any) bool {
 	return a == b
 }
 
+// plainNodeWithBatchConcurrency: WithBatchConcurrency on a NewNode() node does not turn it into a batch.
+func plainNodeWithBatchConcurrency() string {
+	return guard(func() string {
+		payload := []int{1, 2, 3}
+		var execArgs []any
+		var postPrep, postExec any
+		n := NewNode().WithBatchConcurrency(2).
+			WithPrepFuncAny(func(c context.Context, s *SharedStore) (any, error) { return payload, nil }).
+			WithExecFuncAny(func(c context.Context, p any) (any, error) { execArgs = append(execArgs, p); return "exec-out", nil }).
+			WithPostFuncAny(func(c context.Context, s *SharedStore, p, e any) (Action, error) { postPrep, postExec = p, e; return "next", nil })
+		act, err := Run(context.Background(), n, NewSharedStore())
+		if err != nil || act != "next" {
+			return fmt.Sprintf("C01: %v / %q", err, act)
+		}
+		if len(execArgs) != 1 || !reflect.DeepEqual(execArgs[0], payload) {
+			return fmt.Sprintf("C01/C17: a plain function-style node with WithBatchConcurrency(2) and a slice as prep value: exec was called %d time(s) with %v, want once with the prep value %v", len(execArgs), execArgs, payload)
+		}
+		if !reflect.DeepEqual(postPrep, payload) || postExec != "exec-out" {
+			return fmt.Sprintf("C01/C17: post received (%v, %v), want the prep value and exec's result", postPrep, postExec)
+		}
+		return ""
+	})
+}
+
 func runLifecycle(sc lcScenario, prop string) string {
+	if sc.Kind == "special:plain-node-with-batch-concurrency" {
+		if !wants(prop, "C01", "C17") {
+			return ""
+		}
+		return plainNodeWithBatchConcurrency()
+	}
 	return guard(func() string {
 		var pv any = &struct{ tag string }{"prep-value"}
 		if sc.NilPtr {
@@ -1022,7 +1053,10 @@ func flowScenarios() []flScenario {
 		flScenario{Special: "node-in-two-single-node-flows", Nested: -1, FailAt: -1, CancelAt: -1, Runs: 1},
 		flScenario{Special: "flow-with-its-own-retry-budget", Nested: -1, FailAt: -1, CancelAt: -1, Runs: 1},
 		flScenario{Special: "zero-size-node-types", Nested: -1, FailAt: -1, CancelAt: -1, Runs: 1},
-		flScenario{Special: "inner-flow-context-outlives-it", Nested: -1, FailAt: -1, CancelAt: -1, Runs: 1})
+		flScenario{Special: "inner-flow-context-outlives-it", Nested: -1, FailAt: -1, CancelAt: -1, Runs: 1},
+		flScenario{Special: "empty-action-edge", Nested: -1, FailAt: -1, CancelAt: -1, Runs: 1},
+		flScenario{Special: "cancel-in-last-node", Nested: -1, FailAt: -1, CancelAt: -1, Runs: 1},
+		flScenario{Special: "flows-have-their-own-base-node", Nested: -1, FailAt: -1, CancelAt: -1, Runs: 1})
 	return out
 }
 
@@ -1272,6 +1306,61 @@ func innerFlowContextOutlivesIt() string {
 	})
 }
 
+// emptyActionEdge: (n, "") and (n, "default") are different entries of the table.
+func emptyActionEdge() string {
+	return guard(func() string {
+		var log []string
+		a, x, y := flLogNode(&log, "a", ""), flLogNode(&log, "viaDefault", "end"), flLogNode(&log, "viaEmpty", "end")
+		fl := NewFlow(a)
+		fl.Connect(a, DefaultAction, x)
+		fl.Connect(a, "", y)
+		if err := fl.Run(context.Background(), NewSharedStore()); err != nil {
+			return "C03: " + err.Error()
+		}
+		if got := strings.Join(log, " "); got != "a viaDefault" {
+			return fmt.Sprintf("C03: Connect(a, \"default\", x) then Connect(a, \"\", y); a finishes with the default action: visited %q, want \"a viaDefault\"", got)
+		}
+		return ""
+	})
+}
+
+// cancelInLastNode: a flow whose path has run to its end (through a connection to nil) has succeeded,
+// also when the context was cancelled while its last node ran; nested or not.
+func cancelInLastNode() string {
+	return guard(func() string {
+		for _, nested := range []bool{false, true} {
+			ctx, cancel := context.WithCancel(context.Background())
+			last := NewNode().WithPostFuncAny(func(c context.Context, s *SharedStore, p, e any) (Action, error) { cancel(); return "done", nil })
+			fl := NewFlow(last)
+			fl.Connect(last, "done", nil)
+			var top Node = fl
+			if nested {
+				top = NewFlow(fl)
+			}
+			act, err := Run(ctx, top, NewSharedStore())
+			cancel()
+			if err != nil || act != "done" {
+				return fmt.Sprintf("C10/C04: a flow (nested: %v) whose last node ends it through a connection to nil, context cancelled inside that node: Run = (%q, %v); every phase on the path succeeded and no node was left to start", nested, act, err)
+			}
+		}
+		return ""
+	})
+}
+
+// flowsHaveOwnBaseNode: configuring one flow as a retryable node leaves other flows alone.
+func flowsHaveOwnBaseNode() string {
+	return guard(func() string {
+		var log []string
+		f1, f2 := NewFlow(flLogNode(&log, "a", "x")), NewFlow(flLogNode(&log, "b", "x"))
+		WithMaxRetries(4)(f1.BaseNode)
+		defer WithMaxRetries(1)(f1.BaseNode)
+		if f2.GetMaxRetries() != 1 || NewFlow(flLogNode(&log, "c", "x")).GetMaxRetries() != 1 {
+			return fmt.Sprintf("C10/C19: giving one flow a retry budget of 4 changed other flows: %d", f2.GetMaxRetries())
+		}
+		return ""
+	})
+}
+
 func runFlowScenario(sc flScenario, prop string) string {
 	if sc.Nested == -9 {
 		return nilEndedInnerFlow()
@@ -1289,6 +1378,9 @@ func runFlowScenario(sc flScenario, prop string) string {
 		"flow-with-its-own-retry-budget": {[]string{"C02"}, flowWithOwnRetryBudget},
 		"zero-size-node-types":           {[]string{"C03"}, zeroSizeNodeTypes},
 		"inner-flow-context-outlives-it": {[]string{"C10"}, innerFlowContextOutlivesIt},
+		"empty-action-edge":              {[]string{"C03"}, emptyActionEdge},
+		"cancel-in-last-node":            {[]string{"C04", "C10"}, cancelInLastNode},
+		"flows-have-their-own-base-node": {[]string{"C10", "C19"}, flowsHaveOwnBaseNode},
 	}
 	if sp, ok := special[sc.Special]; ok {
 		if !wants(prop, sp.props...) {
@@ -1507,6 +1599,7 @@ func batchScenarios() []btScenario {
 	for _, c := range []int{2, 3} {
 		out = append(out, btScenario{Items: 2*c + 1, Concurrency: c, Retries: 1, Payload: "results", CancelIn: -1, ErrResult: -1, Special: "free-slot-takes-next-item"})
 	}
+	out = append(out, btScenario{Items: 0, Retries: 1, Payload: "results", CancelIn: -1, ErrResult: -1, Special: "empty-batch-post-error"})
 	out = append(out, btScenario{Items: 0, Payload: "nil", CancelIn: -1, ErrResult: -1, Retries: 1}, btScenario{Items: 1, Payload: "single", CancelIn: -1, ErrResult: -1, Retries: 1, Fail: []int{0}},
 		btScenario{Items: 0, Payload: "results", CancelIn: -1, ErrResult: -1, Retries: 1, PostAction: "custom"})
 	return out
@@ -1598,6 +1691,21 @@ func runBatchScenario(sc btScenario, prop string) string {
 			return ""
 		}
 		return batchFreeSlotTakesNextItem(sc.Concurrency, sc.Items)
+	case "empty-batch-post-error":
+		if !wants(prop, "C04") {
+			return ""
+		}
+		return guard(func() string {
+			boom := &btWrapErr{"post failed for a reason", errors.New("root cause")}
+			b := NewBatchNode().
+				WithPrepFunc(func(c context.Context, s *SharedStore) ([]Result, error) { return nil, nil }).
+				WithPostFunc(func(c context.Context, s *SharedStore, items, results []Result) (Action, error) { return "", boom })
+			_, err := Run(context.Background(), NewFlow(b), NewSharedStore())
+			if err == nil || !errors.Is(err, boom) {
+				return fmt.Sprintf("C04: an empty batch whose post fails: the run returned %v, which does not match the callback's error", err)
+			}
+			return ""
+		})
 	}
 	return guard(func() string {
 		ctx, cancel := context.WithCancel(context.Background())
@@ -1886,6 +1994,22 @@ func runBatchScenario(sc btScenario, prop string) string {
 				}
 			}
 		}
+		if wants(prop, "C06", "C09") && !cancelled {
+			// without any failing item nothing stops a batch, whatever the error mode
+			anyFail := sc.ErrItem1 > 0 || sc.ErrBoth
+			for i := 0; i < sc.Items; i++ {
+				if i < len(sc.Fail) && sc.Fail[i] >= sc.Retries {
+					anyFail = true
+				}
+			}
+			if !anyFail {
+				for i := 0; i < sc.Items; i++ {
+					if attempts[i] == 0 {
+						return fmt.Sprintf("C06/C09: no item failed and the context is alive, yet item %d was never processed (stop mode: %v, concurrency %d); its slot: value %v err %v", i, sc.Stop, sc.Concurrency, gotResults[i].Value(), gotResults[i].Error())
+					}
+				}
+			}
+		}
 		if wants(prop, "C07") && !sc.Stop && !cancelled {
 			for i := 0; i < sc.Items; i++ {
 				if attempts[i] == 0 {
@@ -2090,6 +2214,24 @@ func storeLockProbe() string {
 		}
 		if v, _ := st.Get("nums"); reflect.TypeOf(v) != reflect.TypeOf([]int{}) {
 			return fmt.Sprintf("C13: Set(k, []int) followed only by getters: Get(k) now returns a %T", v)
+		}
+		st.Set("nil", nil)
+		if _, ok := st.Get("nil"); !st.Has("nil") || !ok {
+			return fmt.Sprintf("C13: after Set(k, nil): Has(k)=%v, Get(k) ok=%v; on an ordinary map the key is present", st.Has("nil"), ok)
+		}
+		empty := NewSharedStore()
+		snap := empty.GetAll()
+		empty.Set("later", 1)
+		if len(snap) != 0 {
+			return fmt.Sprintf("C13: a snapshot taken from an empty store shows a later Set (%v): GetAll handed out the store's own map", snap)
+		}
+		snap2 := NewSharedStore()
+		m := snap2.GetAll()
+		if m != nil {
+			m["ghost"] = true
+		}
+		if snap2.Has("ghost") {
+			return "C13: editing the snapshot of an empty store changed the store"
 		}
 	}
 	type op struct {
@@ -2382,6 +2524,10 @@ func bindCases() []bindCase {
 		{"value that is itself a Result, same type", NewResult("payload"), func() any { return &Result{} }},
 		{"value that is itself a Result, other type", NewResult(7), func() any { var i int; return &i }},
 		{"zero Result as a value", Result{}, func() any { return &vrUser{ID: 1} }},
+		{"interface destination already holding a value of the value's type", 7, func() any { var a any = 1; return &a }},
+		{"interface destination holding a struct of the value's type", vrUser{4, "d"}, func() any { var a any = vrUser{}; return &a }},
+		{"typed nil pointer value, same pointer type", (*vrUser)(nil), func() any { p := &vrUser{ID: 9}; return &p }},
+		{"typed nil pointer value, struct destination", (*vrUser)(nil), func() any { return &vrUser{ID: 9, Name: "kept"} }},
 	}
 }
 
@@ -2455,6 +2601,18 @@ func configPresetReuse(label string) string {
 			WithExecFunc(func(ctx context.Context, p Result) (Result, error) { calls += "result "; return NewResult("from-result"), nil })
 		if _, err := Run(context.Background(), nb, NewSharedStore()); err != nil || calls != "result " {
 			return fmt.Sprintf("%s: NewNode().WithExecFuncAny(a).WithMaxRetries(2).WithExecFunc(r): the last setting must win; exec calls %q, error %v", label, calls, err)
+		}
+		for _, size := range []int{-3, -1, 0} {
+			done := make(chan struct{})
+			p := NewWorkerPool(size)
+			p.Submit(func() { close(done) })
+			select {
+			case <-done:
+			case <-time.After(2 * time.Second):
+				return fmt.Sprintf("%s: NewWorkerPool(%d) must behave like a pool of one worker; a submitted task did not run", label, size)
+			}
+			p.Wait()
+			p.Close()
 		}
 		for k := 1; k <= 3; k++ {
 			n := NewNode(preset...)
